@@ -326,16 +326,20 @@ def toTimeStruct (cv : CertValidity) (now : Int) (offset : Int) (defaultYears : 
        | some t => pure (t, true)
        | none => throw "validity: \"from\" date is not conforming to YYYY-MM-DD")
     else pure (now, false)
-  if !cv.until_.isEmpty && !cv.duration.isEmpty then throw "validity: \"until\" and \"duration\" were both specified"
-  else if !cv.until_.isEmpty then
-    match parseDate cv.until_ offset with
-    | some t => pure ⟨from_, t, st, true⟩
-    | none => throw "validity: \"until\" date is not conforming to YYYY-MM-DD"
-  else if !cv.duration.isEmpty then
-    match parseDuration cv.duration with
-    | some (y, m, d) => pure ⟨from_, Calendar.addDate from_ offset y m d, st, true⟩
-    | none => throw "validity: \"duration\" is not conforming to schema"
-  else pure ⟨from_, Calendar.addDate from_ offset defaultYears 0 0, st, st⟩
+  let v : Validity ← if !cv.until_.isEmpty && !cv.duration.isEmpty then throw "validity: \"until\" and \"duration\" were both specified"
+    else if !cv.until_.isEmpty then
+      match parseDate cv.until_ offset with
+      | some t => pure ⟨from_, t, st, true⟩
+      | none => throw "validity: \"until\" date is not conforming to YYYY-MM-DD"
+    else if !cv.duration.isEmpty then
+      match parseDuration cv.duration with
+      | some (y, m, d) => pure ⟨from_, Calendar.addDate from_ offset y m d, st, true⟩
+      | none => throw "validity: \"duration\" is not conforming to schema"
+    else pure ⟨from_, Calendar.addDate from_ offset defaultYears 0 0, st, st⟩
+  -- neither ASN.1 nor the configuration hash can represent years beyond 9999
+  if (Calendar.wallOf v.until_ offset).year > 9999 || (Calendar.wallOf v.until_ 0).year > 9999 then
+    throw "validity ends after the year 9999"
+  pure v
 
 /-! ### certificate and profile -/
 
